@@ -9,6 +9,7 @@ import (
 	"bufio"
 	"encoding/json"
 	"fmt"
+	"hash/fnv"
 	"os"
 	"runtime"
 	"strconv"
@@ -42,6 +43,7 @@ type RunResult struct {
 	Ctr      map[string]int64 `json:"ctr,omitempty"`
 	Tape     []uint64         `json:"tape,omitempty"`
 	TapeLen  int              `json:"tape_len"`
+	TapeHash string           `json:"tape_hash"` // hash over every (label, bound, value) drawn: the determinism witness
 	Overrun  int              `json:"overrun,omitempty"`
 	Hung     bool             `json:"hung,omitempty"`
 }
@@ -130,7 +132,7 @@ func runOne(c *Cmd, run int, t *tape.Tape, limit time.Duration) (res *RunResult,
 	for {
 		select {
 		case o := <-done:
-			res = &RunResult{Run: run, Outcome: o, Ctr: env.Ctr, TapeLen: len(t.Rec), Overrun: t.Overrun}
+			res = &RunResult{Run: run, Outcome: o, Ctr: env.Ctr, TapeLen: len(t.Rec), Overrun: t.Overrun, TapeHash: tapeHash(t)}
 			if c.WantTape || o.Class != "" {
 				res.Tape = t.Values()
 			}
@@ -177,6 +179,14 @@ func runOne(c *Cmd, run int, t *tape.Tape, limit time.Duration) (res *RunResult,
 			}
 		}
 	}
+}
+
+func tapeHash(t *tape.Tape) string {
+	h := fnv.New64a()
+	for _, r := range t.Rec {
+		fmt.Fprintf(h, "%s/%d/%d;", r.L, r.N, r.V)
+	}
+	return fmt.Sprintf("%016x", h.Sum64())
 }
 
 func firstLines(s string, n int) []string {
